@@ -9,19 +9,19 @@ CHECKS = {
          "Every kernel the host can execute (AVX-512, AVX2, SSSE3, portable, via the hook) and the public dispatchers are run over all lengths 0..=320 (+511..513, 1280, 4099), all 64 start offsets, scalars and adversarial contents, and compared byte for byte with an element-wise model built on the polynomial multiplier; the packed binary operand is built by the harness from the documented layout. Thorough tier enumerates all 256 scalars everywhere.",
          "NEON kernels cannot run on this x86-64 host. The dispatch override/entry hooks are trusted to call the kernel they name.",
          "DESIGN.md 5/C11"),
- "C12": ("guard-page placement of kernel operands in a child process + proptest of the slab's paired borrow (address arithmetic; permutation and arbitrary reorder mappings) + ASan replay of a generated corpus",
+ "C12": ("guard-page placement of kernel operands in a child process + proptest of the slab's paired borrow (address arithmetic; permutation and arbitrary reorder mappings; run in a child process whose death by signal is a finding) + ASan replay of a generated corpus",
          "Dynamic detection on generated inputs: (1) every kernel/op/length with operands flush against PROT_NONE pages (start and end), a fault kills the child and the parent reports the recorded case; (2) generated slab operation sequences: returned slices inside the slab and disjoint, illegal pairs refused, all symbols equal a model; (3) AddressSanitizer builds of the fuzz targets over a generated corpus (driver).",
          "Only executed paths; NEON excluded; aliasing rules beyond address overlap (Stacked/Tree Borrows) are not checked in the quick tier.",
          "DESIGN.md 5/C12"),
- "C16": ("model-based stateful proptest: both matrix implementations vs. a tri-state bit-array model under an admissible-operation grammar",
+ "C16": ("model-based stateful proptest: both matrix implementations vs. a tri-state bit-array model under an admissible-operation grammar (plus dense-only sub-row / non-zero-column queries from any start column)",
          "Generated shapes and operation sequences (construction / indexed / un-indexed phases, mirroring every assert in sparse_matrix.rs) are applied to DenseBinaryMatrix, SparseBinaryMatrix and a plain Vec<Vec<Tri>> model; every query answer of both implementations is compared with the model on defined cells, plus a full scan at the end; also run with debug assertions. Found and drove the repair of two out-of-bounds panics of the dense matrix.",
          "Sampled sequences; undefined cells (left of start_col after a partial addition where the source row is non-zero) are excluded as the interface declares; trailing dense hint >= 1.",
          "DESIGN.md 5/C16"),
- "C17": ("controlled-scheduler exploration (threads parked in front of both critical sections and, for part of the shapes, while they hold a plan): exhaustive enumeration of interleavings for small shapes + generated schedules and eviction histories, invariants after every step",
+ "C17": ("controlled-scheduler exploration (threads parked in front of both critical sections and, for part of the shapes, while they hold a plan): exhaustive enumeration of interleavings for small shapes + generated schedules and eviction histories (sizes up to 120, and size families that agree modulo 2^k or share a Table-2 parameter), invariants after every step",
          "The harness owns the schedule of the plan cache's two critical sections through the yield hook: all interleavings are enumerated for 2x2, 3x1 and selected 3x2 request shapes (also with the cache at capacity), and generated request histories/schedules (incl. 60-90 distinct sizes to force eviction and re-requests of evicted sizes) are explored; after every critical section the capacity bound, the queue/key bijection and key == plan size are checked, and every encoder is compared (== and packet-wise) with encoders built without the cache. An uncontrolled multi-thread stress run adds the same invariants at the end.",
          "Sound reduction to critical-section granularity assumes all shared state is behind the cache Mutex (true in this tree) and std::sync::Mutex is correct; exhaustive only for the listed small shapes.",
          "DESIGN.md 5/C17"),
- "C07": ("multi-build differential testing over a seeded generated workload (SHA-256 per case and configuration) + in-process enumeration of all 477 block sizes through every construction (planned / unplanned / cache / dense / sparse), packets compared; release vs debug-assertion harness builds on oracle-constructed rank-deficient histories",
+ "C07": ("multi-build differential testing over a seeded generated workload (packet-by-packet and one-call decodes, overheads up to and beyond H; SHA-256 per case and configuration) + in-process enumeration of all 477 block sizes through every construction (planned / unplanned / cache / dense / sparse), packets compared; release vs debug-assertion harness builds on oracle-constructed rank-deficient histories",
          "The same generated workload is run in 4 cargo builds (release / debug-assertions+overflow-checks x std / no_std) and, inside the release-std build, under every forced kernel (AVX-512, AVX2, SSSE3, portable, default) x sparse threshold {0, 250, inf} x plan mode {new, new again (cache hit), with_encoding_plan, unplanned}; every configuration must produce the identical digest of packets + decode outcome + decoded bytes for every case (undecodable cases included).",
          "Differential: agreement of all configurations, not absolute correctness (that is C01/C04). NEON and 32-bit x86 cannot run here. The dispatch override hook is trusted.",
          "DESIGN.md 5/C07"),
